@@ -8,7 +8,7 @@ also cross-checked against the extracted Coq Core model on every case.  A differ
 known class only when the corresponding trigger fired while CORE executed the script (decided from the
 case alone)."""
 import hashlib, json, os
-from core import Case, VERIF
+from core import Case, load_known, VERIF
 
 PROP = 'C19'
 COQ_FILES = ['Extract/C19.v', 'Properties/C19.v']
@@ -57,6 +57,13 @@ ASSUMPTIONS += [
     'in which a recorded deviation class fires is compared with the model and with equal evaluations of the same session '
     'only; the class checkmultisig_conventions no longer covers the bare form <> sig.. m key.. n OP_CHECKMULTISIG as last '
     'command (ms_plain): there the verdict is judged against consensus',
+    'scripts that reach evaluate() through PARSING (p2sh requests): Script.parse is not part of the C19 model; the expected '
+    'library answer is the model evaluation of the flattened command list (signature pushes, commands of the pushed redeem '
+    'script, output script) with env_data redeemscript = the bytes AS PUSHED, both computed by the harness with its own '
+    'parser; the property-level oracle is BIP16 on the raw bytes (own parser, own EvalScript, own HASH160; no minimal-push '
+    'rule, which is policy); the commitment step is proved for the model (p2sh_commitment_is_hash_of_pushed_bytes); '
+    'generated inside the domain on which the recorded CHECKMULTISIG conventions agree with consensus, so no recorded '
+    'class excuses a p2sh case; OP_PUSHDATA4, witness scripts and Transaction inputs are not generated',
 ]
 ESCALATE_CAP = 30000
 RULE = ('exhaustive: every opcode 0x00..0xff x every stack of <=2 (quick) / <=3 (thorough) items over the 14-item set '
@@ -67,7 +74,12 @@ RULE = ('exhaustive: every opcode 0x00..0xff x every stack of <=2 (quick) / <=3 
         '(low 16 bits 0, v-1, v, v+1, 0xffff) x version {absent, 0, 1, 2, 3, 2^31-1, 2^31, 2^32-1}, operand encodings '
         '(padded, 5 and 6 bytes, negative, negative zero, empty), CLTV operand x nLockTime x nSequence around 500000000, '
         '2^31, 2^32, 2^39; sessions (several constructor / evaluate calls in one process): signature replay under other '
-        'messages in both orders, bare multisig, locks under changing env_data, objects evaluated repeatedly, mixtures')
+        'messages in both orders, bare multisig, locks under changing env_data, objects evaluated repeatedly, mixtures; '
+        'PARSED P2SH spends (p2sh requests): m-of-n multisig redeem scripts (7 shapes, m <= n <= 3) serialised by the harness with a '
+        'chosen push opcode per item (direct / OP_PUSHDATA1 / OP_PUSHDATA2) for the keys inside the redeem script, the '
+        'signatures and the redeem script push; output committing to the pushed bytes / the canonical re-serialisation / '
+        'another script / a non-HASH160 digest; signatures good / last keys / swapped / foreign; parsed with Script.parse_bytes, '
+        'parse_hex, parse(stream) or as two parsed halves added, then evaluated')
 EXHAUSTIVE = True
 
 # ---------------------------------------------------------------- fixed universe (real signatures, see c19_impl.MESSAGE)
@@ -759,6 +771,9 @@ def meta_of(c):
         t = c.req.split(' ')
         if t[0] == 'ses':
             m['steps'] = parse_steps(t[3:])
+        elif t[0] == 'p2sh':
+            c.meta = mk_p2sh(c.kind, t[1], bytes.fromhex(t[2]), bytes.fromhex(t[3])).meta
+            m = c.meta
         else:
             m['cmds'], m['env'] = cmds_of_tok(t[4]), env_of_tok(t[1])
     return m
@@ -885,6 +900,16 @@ def prop_check(c, out):
     if is_session(c):
         return session_check(c, out)
     v, stk = out.split(' ', 1)
+    if c.req.startswith('p2sh '):
+        sig_b, spk_b = meta_of(c)['p2sh']
+        rv = bip16_verdict(sig_b, spk_b)
+        lv = 'INVALID' if v.startswith('CRASH') else v
+        if rv == 'OUT' or lv == 'UNIMPL':
+            return None
+        if lv != rv:
+            return ('parsed spend: library says %s, consensus (BIP16 on the bytes as pushed; hash160 of the pushed redeem '
+                    'script %s) says %s' % (v, hash160(raw_parse(sig_b)[-1]).hex(), rv))
+        return None
     rv, rst, _ = ref(c)
     return judge(v, stk, rv, rst)
 
@@ -899,10 +924,52 @@ CLASS_IDS = ['sub_operand_order', 'pick_index_off_by_one', 'roll_index_off_by_on
 def _cls(cid):
     # sessions: evaluations in which a class fired are not judged against consensus at all (session_check), so a
     # failing session is never excused
-    return lambda c, io, mo: (not is_session(c)) and cid in ref(c)[2]
+    # parsed P2SH spends are generated inside the domain where the library's conventions agree with consensus and are
+    # judged by the BIP16 oracle on the raw bytes: never excused
+    return lambda c, io, mo: (not is_session(c)) and not c.req.startswith('p2sh ') and cid in ref(c)[2]
 
 
 KNOWN_CLASSES = {cid: _cls(cid) for cid in CLASS_IDS}
+
+
+def _is_p2sh_output(spk_b):
+    return len(spk_b) == 23 and spk_b[:2] == b'\xa9\x14' and spk_b[22] == 0x87
+
+
+def _other_typed(d):
+    """scripts.get_data_type(d) == 'other': not signature- / key-shaped, not 20 / 32 / 64 / 1..4 bytes long"""
+    if d[:1] == b'\x30' and 69 <= len(d) <= 74:
+        return False
+    if (d[:1] in (b'\x02', b'\x03') and len(d) == 33) or (d[:1] == b'\x04' and len(d) == 65):
+        return False
+    return not (len(d) in (20, 32, 64) or 1 <= len(d) <= 4) and len(d) > 0
+
+
+def _pushed_data_executed(c, io, mo):
+    """class pushed_data_executed: Script.parse treats EVERY pushed item it cannot type (get_data_type 'other') as a
+    serialized script and hands evaluate() its commands instead of the item - also when the output is not P2SH, where
+    consensus only pushes the bytes.  Decided from the request: a parsed spend of a NON-P2SH output whose scriptSig
+    ends in such a push."""
+    if not c.req.startswith('p2sh '):
+        return False
+    sig_b, spk_b = meta_of(c)['p2sh']
+    sc = raw_parse(sig_b)
+    return bool(sc) and not _is_p2sh_output(spk_b) and isinstance(sc[-1], bytes) and _other_typed(sc[-1]) \
+        and raw_parse(sc[-1]) is not None
+
+
+KNOWN_CLASSES['pushed_data_executed'] = _pushed_data_executed
+_STATUS = None
+
+
+def recorded(cls):
+    """inputs of a class that fails on the unchanged library are generated once the finding is recorded
+    (known_findings.json or VERIF_EXTRA_KNOWN)"""
+    global _STATUS
+    if _STATUS is None:
+        from core import load_known
+        _STATUS = {(e.get('class') or e.get('id')): e.get('status') for e in load_known(PROP)}
+    return cls in _STATUS
 
 XCHECK_FAIL = []
 
@@ -1405,6 +1472,138 @@ def gen_sessions(rng, big):
     return cs
 
 
+# ---------------------------------------------------------------- scripts that reach evaluate() through PARSING raw bytes
+# `p2sh <form> <scriptSig hex> <scriptPubKey hex>`: the harness serialises a P2SH spend itself (own serializer, push
+# opcode chosen per item: direct / OP_PUSHDATA1 / OP_PUSHDATA2 - consensus does not demand minimal pushes), the library
+# PARSES the bytes (Script.parse_bytes / parse_hex / parse on a stream / two parsed halves added) and evaluates what it
+# parsed.  Expected library answer (model): evaluation of the flattened command list (signature pushes, the commands of
+# the pushed redeem script, the output script) with env_data['redeemscript'] = THE BYTES ACTUALLY PUSHED.  Independent
+# oracle: BIP16 on the raw bytes, with this file's EvalScript, parser and HASH160.
+P2SH_FORMS = ['pb', 'ph', 'pio', 'add']
+
+
+def push_enc(data, enc):
+    n = len(data)
+    if enc == 'd' and n <= 75:
+        return bytes([n]) + data
+    if enc in ('d', '1') and n <= 255:
+        return b'\x4c' + bytes([n]) + data
+    if enc in ('d', '1', '2'):
+        return b'\x4d' + n.to_bytes(2, 'little') + data
+    return b'\x4e' + n.to_bytes(4, 'little') + data
+
+
+def raw_parse(b):
+    """raw script bytes -> command list (opcodes as int, pushes as bytes); None when a push runs over the end"""
+    out, i = [], 0
+    while i < len(b):
+        ch = b[i]
+        i += 1
+        if 1 <= ch <= 78:
+            if ch <= 75:
+                n = ch
+            else:
+                w = {76: 1, 77: 2, 78: 4}[ch]
+                if i + w > len(b):
+                    return None
+                n = int.from_bytes(b[i:i + w], 'little')
+                i += w
+            if i + n > len(b):
+                return None
+            out.append(b[i:i + n])
+            i += n
+        else:
+            out.append(ch)
+    return out
+
+
+def push_only(cmds):
+    return all(isinstance(c, bytes) or c <= 96 for c in cmds)
+
+
+def bip16_verdict(sig_b, spk_b):
+    """consensus verdict of spending an output with script spk_b by scriptSig sig_b (BIP16 active, no witness)"""
+    sc, pc = raw_parse(sig_b), raw_parse(spk_b)
+    if sc is None or pc is None:
+        return 'INVALID'
+    is_p2sh = len(spk_b) == 23 and spk_b[:2] == b'\xa9\x14' and spk_b[22] == 0x87
+    if is_p2sh and not push_only(sc):
+        return 'INVALID'
+    if not push_only(sc):
+        return 'OUT'                              # (stack hand-over between the two scripts: not built here)
+    rv, rst, _ = core_eval(sc + pc, {}, msg=MESSAGE)
+    if rv != 'VALID' or not is_p2sh:
+        return rv
+    # the serialized script is the last item the scriptSig pushed; it runs on the stack below it
+    rv0, st0, _ = core_eval(sc + [0x51], {}, msg=MESSAGE)
+    if rv0 != 'VALID' or len(st0) < 2:
+        return 'INVALID' if rv0 != 'OUT' else 'OUT'
+    redeem = st0[-2]
+    rc = raw_parse(redeem)
+    if rc is None:
+        return 'INVALID'
+    rv2, _, _ = core_eval(sc[:-1] + rc, dict(redeemscript=redeem), msg=MESSAGE)
+    return rv2
+
+
+def mk_p2sh(kind, form, sig_b, spk_b):
+    sc, pc = raw_parse(sig_b), raw_parse(spk_b)
+    redeem = sc[-1]
+    cmds = sc[:-1] + raw_parse(redeem) + pc
+    env = dict(redeemscript=redeem, sequence=None, locktime=None, version=None)
+    return Case(kind, 'p2sh %s %s %s' % (form, hx(sig_b), hx(spk_b)), meta={'cmds': cmds, 'env': env, 'p2sh': (sig_b, spk_b)})
+
+
+def model_req(c):
+    if c.req.startswith('p2sh '):
+        m = meta_of(c)
+        return 'ev %s %s %s %s' % (env_tok(m['env']), LIBSIG, CORESIG, cmd_tok(m['cmds']))
+    return c.req
+
+
+def gen_p2sh(rng, big):
+    """m-of-n multisig P2SH spends inside the domain on which the library's CHECKMULTISIG conventions agree with
+    consensus (empty dummy, BIP66 signatures, decodable keys, 1 <= m <= n <= 3): every choice of push opcode for the
+    keys inside the redeem script, for the signatures and for the redeem script push; the output commits to the pushed
+    bytes / to the canonical re-serialisation / to another script / to the hash of the flattened commands."""
+    cs = []
+    shapes = [(1, [0]), (1, [0, 1]), (2, [0, 1]), (2, [0, 1, 2]), (1, [2, 0]), (3, [0, 1, 2]), (2, [1, 2])]
+    encs = ['d', '1', '2']
+
+    def redeem_of(m, ks, kenc):
+        return bytes([0x50 + m]) + b''.join(push_enc(KEYS[k], e) for k, e in zip(ks, kenc)) + bytes([0x50 + len(ks), 174])
+
+    def one(m, ks, kenc, senc, renc, sigsel, commit, form):
+        red = redeem_of(m, ks, kenc)
+        canon = redeem_of(m, ks, ['d'] * len(ks))
+        sigs = {'good': [SIGS[k] for k in ks[:m]], 'last': [SIGS[k] for k in ks[-m:]],
+                'swap': [SIGS[k] for k in reversed(ks[:m])], 'foreign': [SIGS[[x for x in range(3) if x not in ks[:1]][0]]] +
+                [SIGS[k] for k in ks[1:m]]}[sigsel]
+        sig_b = b'\x00' + b''.join(push_enc(x, e) for x, e in zip(sigs, senc * 3)) + push_enc(red, renc)
+        h = {'pushed': hash160(red), 'canon': hash160(canon), 'other': hash160(canon + b'\x61'),
+             'sha': hashlib.sha256(red).digest()[:20]}[commit]
+        cs.append(mk_p2sh('p2sh_' + commit + ('' if red == canon else '_nonmin'), form, sig_b, b'\xa9\x14' + h + b'\x87'))
+
+    # corpus: every shape x (all keys direct | first key PUSHDATA1 | last key PUSHDATA2) x both commitments x good signatures
+    for i, (m, ks) in enumerate(shapes):
+        for kenc in (['d'] * len(ks), ['1'] + ['d'] * (len(ks) - 1), ['d'] * (len(ks) - 1) + ['2']):
+            for commit in ('pushed', 'canon'):
+                one(m, ks, kenc, ['d'], 'd', 'good', commit, P2SH_FORMS[(i + len(cs)) % len(P2SH_FORMS)])
+    if recorded('pushed_data_executed'):
+        # a data push of 5..12 bytes that happen to read as opcodes, spent against a NON-P2SH output that counts the stack
+        for k in range(5, 13 if big else 9):
+            for form in P2SH_FORMS[:3]:
+                for want in (k, 1):
+                    cs.append(mk_p2sh('p2sh_data_executed', form, push_enc(b'\x51' * k, 'd'), bytes([0x74, 0x50 + want, 0x87])))
+    for _ in range(4000 if big else 260):
+        m, ks = rng.choice(shapes)
+        kenc = [rng.choice(encs) if rng.random() < 0.5 else 'd' for _ in ks]
+        senc = [rng.choice(encs) if rng.random() < 0.3 else 'd']
+        one(m, ks, kenc, senc, rng.choice(['d', 'd', '1', '2']), rng.choice(['good', 'good', 'good', 'last', 'swap', 'foreign']),
+            rng.choice(['pushed', 'pushed', 'canon', 'canon', 'other', 'sha']), rng.choice(P2SH_FORMS))
+    return cs
+
+
 def gen_cases(rng, tier):
     big = tier == 'thorough'
     cs = []
@@ -1413,6 +1612,7 @@ def gen_cases(rng, tier):
     srng = __import__('random').Random(rng.getrandbits(64))
     cs += gen_sessions(srng, big)
     cs += gen_lock_sweeps(big)
+    cs += gen_p2sh(srng, big)
     cs.append(mk('corpus', [b'\x64', 177], dict(ENV_FULL, locktime=60000000)))        # 100 CLTV, tx locktime 6e7 (fixed: C19-1)
     cs.append(mk('corpus', [0x51, 178], dict(ENV_FULL, sequence=0, version=1)))        # 1 CSV, version 1 (fixed: C19-2)
     cs.append(mk('corpus', ms_script([SIGA], 1, [PKA])))
